@@ -6,7 +6,8 @@ HERE="$(cd "$(dirname "$0")" && pwd)"
 cd "$HERE" || exit 2
 PY=/verif/.venv/bin/python
 [ -x "$PY" ] && "$PY" -c "import z3" 2>/dev/null || "$HERE/setup.sh" >/dev/null || exit 2
-export PYTHONPATH="$HERE:/repo" PYTHONHASHSEED=0
+# VERIF_REPO (default /repo) is only overridden when evaluating seeded changes in scratch worktrees
+export PYTHONPATH="$HERE:${VERIF_REPO:-/repo}" PYTHONHASHSEED=0
 m="$1"; t="${2:-quick}"
 shift; [ $# -gt 0 ] && shift
 exec "$PY" -m "checks.$m" --tier "$t" "$@"
